@@ -36,14 +36,10 @@ EndsInDigit(path) == Len(path) > 0 /\ SubSeq(path, Len(path), Len(path)) \in Dig
 \* (numbered instance directories such as cpuN / nodeN only disappear together with a directory above them)
 SnRemovable(kind, path) == kind \in {"file", "symlink"} \/ (kind = "dir" /\ ~EndsInDigit(path))
 
-(* ---- fault sets over a path table tab = [np, removable, parent, ...] (indexes 1..np) ---- *)
-RECURSIVE SnAnc(_, _)
-SnAnc(tab, i) == IF tab.parent[i] = 0 THEN {} ELSE {tab.parent[i]} \cup SnAnc(tab, tab.parent[i])
+(* ---- fault sets over a path table tab = [np, removable, ...] (indexes 1..np; removable[i] = 1 iff SnRemovable) ---- *)
+\* only removable paths are removed on their own; what is inside a removed directory goes with it, and that is the
+\* only way a numbered instance directory disappears
 FaultSetOK(tab, rs) == rs \subseteq 1..tab.np /\ \A i \in rs : tab.removable[i] = 1
-\* the paths that are gone once rs is removed
-SnGone(tab, rs) == {i \in 1..tab.np : i \in rs \/ SnAnc(tab, i) \cap rs # {}}
-\* an instance directory is never gone on its own
-InstanceRule(tab, rs) == \A i \in SnGone(tab, rs) : tab.removable[i] = 0 => SnAnc(tab, i) \cap rs # {}
 
 (* ---- outcomes and the four relations ---- *)
 \* (1) a load fails cleanly with -1 or yields a well-formed topology carrying the configuration
